@@ -43,6 +43,9 @@ FUN = {
     # an UNNAMED byte-identical twin at the same lines is C04's known finding, not C20's business.
     40: dict(expr='c20m_w.norm_a', call='c20m_w.norm_a(%d)', shape=('Loop', 11)),
     41: dict(expr='c20m_w.norm_b', call='c20m_w.norm_b(%d)', shape=('Loop', 11)),
+    # made by exec() under pseudo file names without a linecache entry
+    50: dict(expr='ex0', call='ex0(%d)', shape=('Loop', 12)),
+    51: dict(expr='ex1', call='ex1(%d)', shape=('Loop', 13)),
     10: dict(expr='c20m_a.a0', call='c20m_a.a0(%d)', shape=('Loop', 3)),
     11: dict(expr='c20m_a.a1', call='c20m_a.a1(%d)', shape=('Loop', 4)),
     12: dict(expr='c20m_a.KA.am', call='c20m_a.KA().am(%d)', shape=('Loop', 5)),
@@ -58,7 +61,7 @@ FUN = {
 # what add_module registers for each name -m can take; a dotted name means the sub-module, not its parent package
 MODS = {'c20m_a': [10, 11, 12, 13, 14], 'c20m_b': [20, 21, 22], 'c20pkg': [30, 31], 'c20pkg.sub': [32, 33],
         'c20m_w': [40, 41]}
-CALLABLE = [0, 1, 2, 3, 7, 8, 10, 11, 12, 13, 14, 20, 21, 22, 30, 31, 32, 33]
+CALLABLE = [0, 1, 2, 3, 7, 8, 10, 11, 12, 13, 14, 20, 21, 22, 30, 31, 32, 33, 50, 51]
 TWINS = [40, 41]
 RAISER = {'SysExit': 4, 'KbdInt': 5, 'ExcOther': 6}
 # coarser than the timer's 1e-9 s, equal to it, and finer (every cell then needs the wide-number formats)
@@ -86,7 +89,7 @@ def flatten(top):
 
 
 def mk_inv(f=(), m=(), u=None, r=False, s=False, D=False, T=False, top=((0, 2),), outcome='Return', bind=False,
-           bad_f=False, bad_m=False):
+           bad_f=False, bad_m=False, syntax=False):
     """f: function ids named by -f; m: module names; u: None | 'abc' (bad) | value"""
     _counter[0] += 1
     i = _counter[0]
@@ -112,7 +115,12 @@ def mk_inv(f=(), m=(), u=None, r=False, s=False, D=False, T=False, top=((0, 2),)
             txt = '%s = %s' % (name, txt)
         stmts.append(txt)
     calls = flatten(top)
-    if outcome != 'Return':
+    if syntax:
+        # the statement does not compile: exec raises SyntaxError before anything runs.  For the model this is a
+        # statement that makes no calls and ends in an exception other than SystemExit / KeyboardInterrupt.
+        outcome, calls, binds = 'ExcOther', [], []
+        stmts = [stmts[0].rstrip(')')] if stmts and stmts[0].endswith(')') else ['c0(1']
+    elif outcome != 'Return':
         stmts.append(FUN[RAISER[outcome]]['call'])
         calls.append((RAISER[outcome], 0))
     parts = []
@@ -132,12 +140,13 @@ def mk_inv(f=(), m=(), u=None, r=False, s=False, D=False, T=False, top=((0, 2),)
         parts.append('-D @D@')
     if T:
         parts.append('-T @T@')
-    line = ' '.join(parts) + ' _c20_grab(); ' + '; '.join(stmts)
+    line = ' '.join(parts) + (' ' if syntax else ' _c20_grab(); ') + '; '.join(stmts)
     reaches = (None not in a_f) and (None not in a_m) and u != 'abc'
     named = ([x for x in a_f] + [y for l in a_m for y in l]) if reaches else []
     post = sorted({x for x in named if FUN[x]['shape'][0] != 'Raiser'})
     return dict(line=line.strip(), a_f=a_f, a_m=a_m, u=u, u_ok=(u if u not in (None, 'abc') else None), r=bool(r), s=bool(s),
-                D=dn, T=tn, calls=calls, outcome=outcome, binds=binds, reaches=reaches, named=named, post=post, idx=i)
+                D=dn, T=tn, calls=calls, outcome=outcome, binds=binds, reaches=reaches, named=named, post=post, idx=i,
+                runs=not syntax)
 
 
 def rand_inv(rnd):
@@ -157,7 +166,8 @@ def rand_inv(rnd):
     outcome = rnd.choice(['Return'] * 5 + ['SysExit', 'SysExit', 'KbdInt', 'KbdInt', 'ExcOther', 'ExcOther'])
     u = rnd.choice([None, None, None] + UNITS + (['abc'] if rnd.random() < 0.25 else []))
     return mk_inv(f=f, m=m, u=u, r=rnd.random() < 0.6, s=rnd.random() < 0.4, D=rnd.random() < 0.4, T=rnd.random() < 0.4,
-                  top=top, outcome=outcome, bind=rnd.random() < 0.12, bad_f=rnd.random() < 0.07, bad_m=rnd.random() < 0.07)
+                  top=top, outcome=outcome, bind=rnd.random() < 0.12, bad_f=rnd.random() < 0.07, bad_m=rnd.random() < 0.07,
+                  syntax=rnd.random() < 0.08)
 
 
 def gen_cases(tier, rnd):
@@ -181,6 +191,12 @@ def gen_cases(tier, rnd):
         cases.append(dict(pre_profile=pre, invs=[mk_inv(f=[14], m=['c20m_a'], r=True, top=[(13, 2), (14, 3), (10, 1)])]))
         cases.append(dict(pre_profile=pre, invs=[mk_inv(m=['c20m_w'], r=True, D=True, top=[(40, 2), (41, 1), (41, 3), (41, 0), (0, 1)]),
                                                  mk_inv(m=['c20m_w', 'c20m_b'], r=True, top=[(41, 2), (40, 1), (20, 1)])]))
+        # a statement that does not compile, then ordinary ones in the same session
+        cases.append(dict(pre_profile=pre, invs=[mk_inv(f=[0], r=True, top=[(0, 10)], syntax=True), mk_inv(f=[0], r=True, top=[(0, 2)]),
+                                                 mk_inv(m=['c20m_b'], D=True, top=[(20, 1)], syntax=True), mk_inv(f=[1], top=[(1, 1)], outcome='KbdInt')]))
+        # functions made by exec under pseudo file names
+        cases.append(dict(pre_profile=pre, invs=[mk_inv(f=[50, 51, 0], r=True, T=True, D=True, top=[(50, 3), (51, 2), (0, 1), (50, 0)]),
+                                                 mk_inv(f=[51], s=True, u='1e-6', top=[(51, 4)], outcome='SysExit')]))
         # units finer / coarser than the timer: wide-number formats in every column
         for u in ('1e-12', '1e-15', '1e-10', '1e-3'):
             cases.append(dict(pre_profile=pre, invs=[mk_inv(f=[0, 10, 7], u=u, r=True, T=True, s=(u == '1e-10'),
@@ -206,7 +222,7 @@ def py_spec(c, o):
                 leak.append(tag + 'no builtins.profile existed before the %lprun invocation; afterwards builtins.profile is its profiler')
             else:
                 why.append(tag + 'builtins.profile %r before, %r after' % (ob['b_before'], ob['b_after']))
-        if not ob['builtins_other_same']:
+        if not ob['builtins_other_same'] and ob.get('interp_same', True):
             why.append(tag + 'other builtins changed')
         if not iv['reaches']:
             if ob['kind'] not in (1, 2) or ob['pages'] or ob['T'] is not None or ob['D'] is not None or ob['ns_added'] or ob['ns_removed']:
@@ -224,10 +240,13 @@ def py_spec(c, o):
         for fid in got:
             if fid not in named:
                 why.append(tag + 'statistics for %r which was not named' % (FUN.get(fid, {}).get('expr', fid),))
-        if ob['count_during'] != 1 or ob['count_after'] != 0 or not ob['stable']:
+        runs = iv.get('runs', True)
+        if not ob.get('interp_same', True):
+            why.append(tag + 'tracing / monitoring state of the interpreter differs after the invocation')
+        if (runs and ob['count_during'] != 1) or ob['count_after'] != 0 or not ob['stable']:
             why.append(tag + 'profiler not enabled for exactly the statement (count during %s, after %s, stable %s)'
                        % (ob['count_during'], ob['count_after'], ob['stable']))
-        if ob['b_during'] != 100 + k:
+        if runs and ob['b_during'] != 100 + k:
             why.append(tag + 'builtins.profile during the statement is not a fresh profiler')
         if iv['outcome'] == 'ExcOther':
             if ob['kind'] != 3:
@@ -328,7 +347,8 @@ def coq_obs(ob, texts):
 
 def coq_case(c, o):
     texts = {}
-    invs = ['(Inv %s %s %s)' % (coq_args(iv), coq_stmt(iv), coq_obs(ob, texts)) for iv, ob in zip(c['invs'], o['invs'])]
+    invs = ['(Inv %s %s %s %s)' % (coq_args(iv), coq_stmt(iv), core.coq_bool(iv.get('runs', True)), coq_obs(ob, texts))
+            for iv, ob in zip(c['invs'], o['invs'])]
     return '(case_ok %s shapes %s)' % (coq_oz(1 if c['pre_profile'] else None), core.coq_list(invs))
 
 
@@ -429,6 +449,8 @@ def run(tier, seed):
                     hist['options'][opt] = hist['options'].get(opt, 0) + 1
             if iv['u'] is not None:
                 hist['options']['u'] = hist['options'].get('u', 0) + 1
+            if not iv.get('runs', True):
+                hist['options']['stmt_syntax_error'] = hist['options'].get('stmt_syntax_error', 0) + 1
             if iv['a_m']:
                 hist['options']['m'] = hist['options'].get('m', 0) + 1
             if ' -m c20pkg.sub' in ' ' + iv['line']:
